@@ -28,10 +28,14 @@ def mps_config(ctx) -> None:
 
     def eff(t):
         """self._backend_options["x"] and self.x are the same effective option"""
-        t = strip_typed(t)
-        if not isinstance(t, tuple):
+        if not isinstance(t, tuple) or not t:
             return t
-        if t[0] == "sub" and strip_typed(t[1]) == ("attr", SELF, "_backend_options") and strip_typed(t[2])[0] == "const":
+        if not isinstance(t[0], str):        # a tuple of terms (argument lists, keyword pairs)
+            return tuple(eff(x) if isinstance(x, tuple) else x for x in t)
+        t = strip_typed(t)
+        if not isinstance(t, tuple) or not t:
+            return t
+        if t[0] == "sub" and len(t) > 2 and strip_typed(t[1]) == ("attr", SELF, "_backend_options") and strip_typed(t[2])[0] == "const":
             return ("attr", SELF, strip_typed(t[2])[1])
         return tuple(eff(x) if isinstance(x, tuple) else x for x in t)
 
